@@ -8,25 +8,56 @@
    root, the same text the harness prints) -> the object it is linked to, the table that object
    lives in and where that table comes from.  An occurrence without an entry has a nil cache.
 
+   Occurrence paths are STRUCTURED (a list of steps, innermost step first) so that distinct
+   occurrences provably have distinct paths whatever characters ids and property names contain;
+   `lpath_text` gives the text the harness prints (used only by Interp/RunLink.v).
+
    All walks recurse on fuel (the nesting depth of the schema text bounds it); theorems hold for
    every fuel. *)
 From Verif Require Import Base.Prelude Base.Str Base.Float Base.GoVal
-  Schema.Regex Schema.Units Schema.Syntax Schema.Ops.
+  Schema.Regex Schema.Units Schema.Syntax Schema.Ops Schema.Wf.
 Open Scope string_scope.
 
-Definition lpath := string.
+Inductive pstep := PItem | PKey | PVal | PProp (n : string) | PMember (k : okey) | PObj (id : string).
+Definition lpath := list pstep.                    (* innermost step first; [] = the root *)
+Definition pstep_eqb (a b : pstep) : bool :=
+  match a, b with
+  | PItem, PItem | PKey, PKey | PVal, PVal => true
+  | PProp x, PProp y => String.eqb x y
+  | PMember x, PMember y => okey_eqb x y
+  | PObj x, PObj y => String.eqb x y
+  | _, _ => false
+  end.
+Fixpoint lpath_eqb (a b : lpath) : bool :=
+  match a, b with
+  | [], [] => true
+  | x :: a', y :: b' => pstep_eqb x y && lpath_eqb a' b'
+  | _, _ => false
+  end.
+Definition pstep_text (s : pstep) : string :=
+  match s with
+  | PItem => "/i" | PKey => "/k" | PVal => "/v"
+  | PProp n => "/p:" ++ n | PMember k => "/m:" ++ okey_text k | PObj id => "/O:" ++ id
+  end.
+(* the text of a path, outermost step first: "/O:A/p:b/i" *)
+Definition lpath_text (p : lpath) : string := fold_right (fun st acc => acc ++ pstep_text st) "" p.
+
 Inductive lloc := LScope (p : lpath) | LExt (ns : string).
 Record lentry := mkLE { le_loc : lloc; le_tab : objtab; le_obj : schema }.
 Definition ltab := list (lpath * lentry).          (* newest first *)
-Definition lt_get (p : lpath) (lt : ltab) : option lentry := alookup p lt.
+Fixpoint lt_get (p : lpath) (lt : ltab) : option lentry :=
+  match lt with
+  | [] => None
+  | (q, x) :: t => if lpath_eqb p q then Some x else lt_get p t
+  end.
 Definition lt_set (p : lpath) (x : lentry) (lt : ltab) : ltab := (p, x) :: lt.
 
-Definition seg_item (p : lpath) : lpath := p ++ "/i".
-Definition seg_key (p : lpath) : lpath := p ++ "/k".
-Definition seg_val (p : lpath) : lpath := p ++ "/v".
-Definition seg_prop (p : lpath) (n : string) : lpath := p ++ "/p:" ++ n.
-Definition seg_member (p : lpath) (k : okey) : lpath := p ++ "/m:" ++ okey_text k.
-Definition seg_obj (p : lpath) (id : string) : lpath := p ++ "/O:" ++ id.
+Definition seg_item (p : lpath) : lpath := PItem :: p.
+Definition seg_key (p : lpath) : lpath := PKey :: p.
+Definition seg_val (p : lpath) : lpath := PVal :: p.
+Definition seg_prop (p : lpath) (n : string) : lpath := PProp n :: p.
+Definition seg_member (p : lpath) (k : okey) : lpath := PMember k :: p.
+Definition seg_obj (p : lpath) (id : string) : lpath := PObj id :: p.
 
 (* the table ApplyNamespace hands down, and where it comes from *)
 Definition lsrc := option (objtab * lloc).
@@ -94,7 +125,7 @@ Fixpoint link_build (fuel : nat) (here : lpath) (s : schema) (lt : ltab) {struct
 
 (* s.ApplyNamespace(tab, ns) for an external namespace *)
 Definition link_ext (fuel : nat) (ns : string) (tab : objtab) (s : schema) (lt : ltab) : outcome ltab :=
-  link_ns fuel (Some (tab, LExt ns)) ns "" s lt.
+  link_ns fuel (Some (tab, LExt ns)) ns [] s lt.
 
 (* every reference occurrence: path, id, namespace *)
 Fixpoint refs_of (fuel : nat) (here : lpath) (s : schema) {struct fuel} : list (lpath * (string * string)) :=
@@ -169,3 +200,34 @@ Fixpoint inline_refs (fuel : nat) (tab : objtab) (stop : list string) (s : schem
     | _ => s
     end
   end.
+
+(* ---------- boolean side conditions of the C14 theorems (evaluated on every generated case by
+   Interp/RunLink.v) ---------- *)
+Fixpoint okey_in (k : okey) (l : list okey) : bool :=
+  match l with [] => false | x :: t => okey_eqb k x || okey_in k t end.
+Fixpoint nodup_okey (l : list okey) : bool :=
+  match l with [] => true | x :: t => negb (okey_in x t) && nodup_okey t end.
+
+(* unique keys in every property / member / object list (Go maps): distinct occurrences, distinct paths *)
+Fixpoint luniq (s : schema) {struct s} : bool :=
+  match s with
+  | SList it _ _ => luniq it
+  | SMap k v _ _ => luniq k && luniq v
+  | SObject _ _ props => nodup_str (map fst props) && forallb (fun np => luniq (p_type (snd np))) props
+  | SOneOf types _ _ _ => nodup_okey (map fst types) && forallb (fun km => luniq (snd km)) types
+  | SScope objs _ => nodup_str (map fst objs) && forallb (fun io => luniq (snd io)) objs
+  | _ => true
+  end.
+
+(* namespace names are distinct and none of them is the self namespace *)
+Definition ns_names_ok (apps : list (string * objtab)) : bool :=
+  nodup_str (map fst apps) && negb (str_in "" (map fst apps)).
+
+(* scope tables hold objects (in Go: map[string]*ObjectSchema), checked at every self-namespace reference *)
+Definition ref_obj (e : env) (s : schema) : bool :=
+  match s with
+  | SRef id ns _ =>
+      if String.eqb ns "" then match alookup id (e_self e) with Some o => is_obj o | None => true end else true
+  | _ => true
+  end.
+Definition refs_to_objects (e : env) (s : schema) : bool := all_env ref_obj e && all_nodes ref_obj e s.
